@@ -117,4 +117,32 @@ CLAIMED["C06"] = {
     "note": "Trusted: Coq kernel; tools/scope.py (block/function/class/catch/switch scoping, hoisting of functions and imports, sequential let/const, closures) as the reading of JavaScript scoping; identity = name + syntax context, so collisions after printing are SWC hygiene's business; hand model tied differentially. Partial: the composition of the proved pieces over the whole traversal is decided per case by the analysis. Known finding hoisted_capture_tdz (pinned by a fixture).",
     "technique": "Coq proofs (monotonicity induction over the nested AST; drain/import lemmas) + binding analysis of real outputs",
 }
+
+# ---- additions of the late build round (new theorems and oracles) ----
+CLAIMED["C01"]["text"] += (" Whole attribute lists under mergeProps (the default) are now proved too: C01_element_props_merge (each run of written attributes is one object grouped "
+                           "exactly as the spec's group_contribs says - C01_dedupe_is_grouping - each spread an argument of its own, joined by mergeProps, a single argument passed as is), "
+                           "and the full statement on a fragment of the language holds with mergeProps on and off (C01_full_statement_on_fragment).")
+CLAIMED["C01"]["note"] = SITE_NOTE + " Outside the proved fragment (element-valued attributes, transformOn objects inside a list) the statement is decided by the oracle only."
+CLAIMED["C11"]["text"] += " C11_source_order_merge: under mergeProps the merge arguments, the keys inside a run and the values of a grouped key keep source order."
+CLAIMED["C11"]["note"] = SITE_NOTE + " The property is about evaluation; it is decided on the syntax of the output, where JavaScript fixes the order. Known finding vslots_on_element_host_dropped."
+CLAIMED["C07"]["text"] += (" C07_traversal_is_jsx_free / C07_module_is_jsx_free: the traversal of ANY grammatical tree (Spec/Plain.gram: JSX node kinds only where the JSX grammar puts them; "
+                           "evaluated on every parsed input of the run) yields a JSX-free tree, whatever the nesting of JSX in expressions in JSX, injected imports / helper / hoisted declarations included; "
+                           "the resolveType hooks are hypotheses, discharged when the option is off (C07_module_is_jsx_free_when_off).")
+CLAIMED["C07"]["note"] = "With resolveType on the hooks' preservation of JSX-freedom is covered by the census of real outputs; `printed form re-parses` is about SWC's printer/parser (empirical). Trusted: Coq kernel; hand model tied differentially."
+CLAIMED["C07"]["technique"] = "Coq proofs by induction over the nested AST (element level and whole traversal) + JSX census and re-parse of real outputs"
+CLAIMED["C08"]["text"] += (" C08_lowering_no_panic (any element whose attribute lists hold attributes and spreads, any nesting) and C08_module_no_panic (any grammatical module: the traversal lowers every element in a ready state, "
+                           "so the flag is never set; hooks as hypotheses, discharged with resolveType off). Ten generated modules with self- / mutually-referential declarations are run as well.")
+CLAIMED["C08"]["note"] = ("Stack exhaustion, time and process-level nondeterminism cannot be exhibited by a Gallina model (harness only). Cyclic type declarations overflowed the stack until fix 9b943db; the model's resolver runs on fuel, so on the cyclic stream only the real run is judged (it returns and reports the cycle). Determinism of the model is by construction; for the code it rests on lints + re-runs.")
+CLAIMED["C08"]["technique"] = "Coq proofs (panic-site unreachability: attribute fold, whole element, whole traversal) + crash/timeout/re-run differential harness + source lints"
+CLAIMED["C09"]["text"] += (" For modules WITH JSX: C09_items_frame (every JSX-free top-level statement comes back unchanged and in order behind what the transform prepends) and C09_idempotent (a second pass is the identity), "
+                           "both with resolveType off; on real outputs the oracle oC09stmts requires every JSX-free statement of the input, at any depth, to be a statement of the output.")
+CLAIMED["C09"]["note"] = "With resolveType on, and for JSX-free code nested beside JSX inside one statement, the frame is decided by the oracles and paired runs. Idempotence of the real code is decided on real second passes."
+CLAIMED["C13"]["text"] += (" Slot hint: C13_slot_flags_propagate (lowering an element ORs `dyn el` - a file-bound identifier child, directly or through direct JSX nesting - into every slot flag on the stack, and nothing else writes the stack; "
+                           "induction over the nested AST), C13_slot_flag_is_dyn / C13_children_argument_uses_dyn (the flag of the element's own children argument is `dyn el`), C13_bound_child_makes_slot_dynamic; "
+                           "on real outputs the probe element is compared with its output by Spec/SlotFlagCheck.flags_site.")
+CLAIMED["C13"]["note"] = "Trusted: Coq kernel; Spec/PatchFlags.v as the reading of Vue's contract, Spec/SlotFlag.dyn_text as the reading of `direct children ... reached by direct JSX nesting`; model tied to code differentially. Known finding class_on_builtin_host."
+CLAIMED["C13"]["technique"] = "Coq proofs (fold invariant over the attribute list; stack invariant over the nested AST) + patch-flag and slot-flag oracles on real outputs + view correspondence"
+CLAIMED["C03"]["text"] += " On the scope stream the binding analysis decides that the `_slot` temporary of a call child is bound where the slot expression uses it."
+CLAIMED["C17"]["note"] = TYPES_NOTE + " Known findings: bigint_literal (pinned by a fixture), union_with_any, empty_object_in_union, indexed_access_inherited_key, unresolved_indexed_access_in_union."
+
 NOT_CLAIMED = {}
